@@ -1025,6 +1025,17 @@ def force_app(I, st, v):
                 return I.exec_fn(st, b, list(v.args))
             except Unanalysable:
                 return [(st, v)]
+        elif len(v.args) == b["arg_count"] - 1:
+            # a closure that captures nothing (`|v| match v { 60 => None, _ => Some(v) }`)
+            from .values import VClosure as _VClosure
+            cl = _VClosure(v.defn, ())
+            selft = I.f.types[b["locals"][1]]
+            try:
+                if selft["k"] == "ref":
+                    cl = VRef(I.new_cell(st, cl), ())
+                return I.exec_fn(st, b, [cl] + list(v.args))
+            except Unanalysable:
+                return [(st, v)]
     return [(st, v)]
 
 
@@ -2383,6 +2394,12 @@ def h_opt_copied(I, st, callee, target, args, ctx):
 @ext("core:Option<T>::unwrap_or", "core:Option<T>::unwrap_or_default")
 def h_opt_unwrap_or(I, st, callee, target, args, ctx):
     v = args[0]
+    if not (isinstance(v, VAdt) and v.adt == OPTION) and isinstance(v, (VApp, VSymEnum)):
+        # the Option comes from a decoder (`parse_minsec(x).unwrap_or_default()`): one case per outcome
+        out = []
+        for s2, o in _opt_val(I, st, v):
+            out += h_opt_unwrap_or(I, s2, callee, target, [o] + list(args[1:]), ctx)
+        return out
     if isinstance(v, VAdt) and v.adt == OPTION:
         if v.variant == 1:
             return [(st, v.fields[0])]
